@@ -205,4 +205,23 @@ theorem adjOf_perm (rows rows' : Rows) (hs : rowsSimple rows) (hs' : rowsSimple 
   unfold valOf at this
   rw [this]
 
+
+/-- two simple stored forms of one matrix store the same number of entries -/
+theorem storedCount_eq_of_simple (rows rows' : Rows) (hs : rowsSimple rows) (hs' : rowsSimple rows')
+    (hlen : rows.length = rows'.length) (h : ∀ i j, valOf rows i j = valOf rows' i j) :
+    storedCount rows = storedCount rows' := by
+  unfold storedCount
+  have : rows.map List.length = rows'.map List.length := by
+    apply List.ext_getElem (by simp [hlen])
+    intro i h1 h2
+    have hi : i < rows.length := by simpa using h1
+    have hi' : i < rows'.length := by simpa using h2
+    have hp := adjOf_perm rows rows' hs hs' hlen h i hi
+    unfold adjOf at hp
+    rw [List.getD_eq_getElem?_getD, List.getD_eq_getElem?_getD, List.getElem?_map, List.getElem?_map,
+      List.getElem?_eq_getElem hi, List.getElem?_eq_getElem hi'] at hp
+    have := hp.length_eq
+    simpa using this
+  rw [this]
+
 end SkNet.Fmt
